@@ -996,7 +996,7 @@ pub fn check_main(args: &[String]) -> i32 {
                 && crate::fidelity::pipe_expressible(&mcase.scn) && !m.class.contains("worker_died") {
                 let hist = crate::world::run_cli(&mcase.scn);
                 if let Some(r) = crate::fidelity::real_run(&mcase.scn, &bin, &scratch_dir, "confirm", Duration::from_secs(20)) {
-                    match crate::fidelity::compare(&hist, &r) {
+                    match crate::fidelity::compare_scn(&mcase.scn, &hist, &r) {
                         Some(Ok(())) => {
                             confirm = "the real binary (guard off, file + pipe) behaves exactly as simulated".to_owned();
                             solid_violations += 1;
@@ -1017,7 +1017,7 @@ pub fn check_main(args: &[String]) -> i32 {
                             plain.stdin.bufreader_cap = 8192;
                             plain.stdout.linewriter_cap = 1024;
                             let h2 = crate::world::run_cli(&plain);
-                            if plain != mcase.scn && matches!(crate::fidelity::compare(&h2, &r), Some(Ok(()))) {
+                            if plain != mcase.scn && matches!(crate::fidelity::compare_scn(&plain, &h2, &r), Some(Ok(()))) {
                                 confirm = "under whole delivery the real binary (guard off, file + pipe) behaves exactly as simulated; the violation needs chunked / interrupted / short delivery, which pipes cannot express".to_owned();
                                 solid_violations += 1;
                             } else {
